@@ -15,9 +15,12 @@
    * sizes, degrees, indices are `Z`; `nat` only as list length / trip count;
    * every name is prefixed `pdiv_` (the interpolation model of C08 lives in the same project).
 
-   VERSION SWITCH (like model/PolyCore.v): `pdiv_clean_divide_v0` is the code of the current tree, `_v1` the code after
-   /verif/fixes/C09-clean-divide-root-on-coset.patch (fall back to long division when a divisor evaluation is zero);
-   the unsuffixed alias `pdiv_clean_divide` is what the oracle runs - see the end of the file. *)
+   VERSION SWITCH (like model/PolyCore.v): two defects of `clean_divide` found by this check were repaired in /repo:
+     `pdiv_clean_divide_v0` = the originally pinned code,
+     `pdiv_clean_divide_v1` = after commit 87d4e9b (fall back to long division when a divisor evaluation is zero),
+     `pdiv_clean_divide_v2` = after commit 8b5e451 as well (the empty dividend passes the root-0 workaround) = the current tree;
+   the unsuffixed alias `pdiv_clean_divide` is what the oracle runs and what the positive theorems are about - see the end
+   of the file. *)
 From Coq Require Import ZArith Bool List.
 From TF Require Import Word BFieldGen BField XField FieldOps PolyGen PolyCore Ntt.
 Import ListNotations.
@@ -553,13 +556,17 @@ End Div.
        let (quotient, remainder) = dividend.divide(&divisor);  debug_assert!(remainder.is_zero());  return quotient; }
      if divisor_coefficients.first().is_some_and(Zero::is_zero) {
        assert!(dividend_coefficients[0].is_zero());  dividend_coefficients.remove(0);  divisor_coefficients.remove(0); }
+  [ since 8b5e451 (`fix2`):
+       assert!(dividend_coefficients.first().is_none_or(Zero::is_zero));
+       if !dividend_coefficients.is_empty() { dividend_coefficients.remove(0); }  divisor_coefficients.remove(0); ]
      let offset = XFieldElement::from([0, 1, 0]);
      let mut dividend_coefficients = dividend.scale(offset).coefficients.into_owned();   (likewise the divisor)
      let order = usize::try_from(dividend.degree() + 1).unwrap().next_power_of_two();
      dividend_coefficients.resize(order, ZERO);  divisor_coefficients.resize(order, ZERO);
      ntt(&mut dividend_coefficients);  ntt(&mut divisor_coefficients);
-  [ _v1 only:  if divisor_coefficients.iter().any(Zero::is_zero) {
-                 let (quotient, remainder) = dividend.divide(&divisor);  debug_assert!(remainder.is_zero());  return quotient; } ]
+  [ since 87d4e9b (`fix1`):
+     if divisor_coefficients.iter().any(Zero::is_zero) {
+       let (quotient, remainder) = dividend.divide(&divisor);  debug_assert!(remainder.is_zero());  return quotient; } ]
      let divisor_inverses = XFieldElement::batch_inversion(divisor_coefficients);
      let mut quotient_codeword = dividend_coefficients.into_iter().zip(divisor_inverses).map(|(l, r)| l * r).collect_vec();
      intt(&mut quotient_codeword);
@@ -578,14 +585,14 @@ Section CleanDivide.
     | None => None
     | Some (q, r) => if dbg && negb (poly_is_zero o r) then None else Some q
     end.
-  (* removal of the root 0: Some (dividend, divisor) after the optional `remove(0)` *)
-  Definition pdiv_remove_root0 (a d : list F) : option (list F * list F) :=
+  (* removal of the root 0: Some (dividend, divisor) after the optional `remove(0)`; `fix2` = commit 8b5e451 *)
+  Definition pdiv_remove_root0 (fix2 : bool) (a d : list F) : option (list F * list F) :=
     match d with
     | c0 :: d' =>
         if fis_zero o c0 then
           match a with
           | x0 :: a' => if fis_zero o x0 then Some (a', d') else None      (* assert! *)
-          | [] => None                                                      (* dividend_coefficients[0] *)
+          | [] => if fix2 then Some ([], d') else None                      (* before the repair: dividend_coefficients[0] *)
           end
         else Some (a, d)
     | [] => Some (a, d)
@@ -603,16 +610,16 @@ Section CleanDivide.
                  | Some dv => Some (av, dv)
                  end
     end.
-  Definition pdiv_clean_divide_gen (patched : bool) (cutoff : Z) (dbg : bool) (a d : list F) : option (list F) :=
+  Definition pdiv_clean_divide_gen (fix1 fix2 : bool) (cutoff : Z) (dbg : bool) (a d : list F) : option (list F) :=
     if poly_degree o d <? cutoff then pdiv_long_division_arm dbg a d
     else
-      match pdiv_remove_root0 a d with
+      match pdiv_remove_root0 fix2 a d with
       | None => None
       | Some (a1, d1) =>
           match pdiv_clean_codewords a1 d1 with
           | None => None
           | Some (av, dv) =>
-              if patched && existsb (fis_zero ox) dv then pdiv_long_division_arm dbg a1 d1
+              if fix1 && existsb (fis_zero ox) dv then pdiv_long_division_arm dbg a1 d1
               else
                 match batch_inv dv with
                 | None => None                                    (* "Cannot do batch inversion on zero" *)
@@ -630,7 +637,7 @@ Section CleanDivide.
       end.
   (* does the divisor vanish somewhere on the evaluation coset? (None: the transforms panic) *)
   Definition pdiv_divisor_vanishes_on_coset (a d : list F) : option bool :=
-    match pdiv_remove_root0 a d with
+    match pdiv_remove_root0 true a d with
     | None => None
     | Some (a1, d1) =>
         match pdiv_clean_codewords a1 d1 with
@@ -642,17 +649,20 @@ End CleanDivide.
 
 (* the instantiation the code uses *)
 Definition pdiv_offset : xfe := (bfe_zero, bfe_one, bfe_zero).           (* XFieldElement::from([0, 1, 0]) *)
-Definition pdiv_clean_divide_v0 (cutoff : Z) (dbg : bool) (a d : list Z) : option (list Z) :=
-  pdiv_clean_divide_gen bfe_ops xfe_ops xb_act xunlift pdiv_offset ntt_x intt_x xbatch_inversion false cutoff dbg a d.
-Definition pdiv_clean_divide_v1 (cutoff : Z) (dbg : bool) (a d : list Z) : option (list Z) :=
-  pdiv_clean_divide_gen bfe_ops xfe_ops xb_act xunlift pdiv_offset ntt_x intt_x xbatch_inversion true cutoff dbg a d.
+Definition pdiv_clean_divide_ver (fix1 fix2 : bool) (cutoff : Z) (dbg : bool) (a d : list Z) : option (list Z) :=
+  pdiv_clean_divide_gen bfe_ops xfe_ops xb_act xunlift pdiv_offset ntt_x intt_x xbatch_inversion fix1 fix2 cutoff dbg a d.
+Definition pdiv_clean_divide_v0 := pdiv_clean_divide_ver false false.
+Definition pdiv_clean_divide_v1 := pdiv_clean_divide_ver true false.
+Definition pdiv_clean_divide_v2 := pdiv_clean_divide_ver true true.
+(* (for evidence) does the fallback to long division of the NTT arm trigger? *)
 Definition pdiv_vanishes_on_coset (a d : list Z) : option bool :=
   pdiv_divisor_vanishes_on_coset bfe_ops xfe_ops xb_act pdiv_offset ntt_x a d.
 
 (* ------------------------------------------------------------------ VERSION SWITCH
-   `_v0` = the code of the current tree; `_v1` = after /verif/fixes/C09-clean-divide-root-on-coset.patch.
-   The alias is what the oracle runs; the lead flips it to `_v1` together with the `fix:` commit. *)
-Definition pdiv_clean_divide := pdiv_clean_divide_v0.
+   `_v0` = the originally pinned code; `_v1` = after the repair commit 87d4e9b; `_v2` = after 8b5e451 too = the
+   current tree.  The alias is what the oracle runs and what the positive theorems of props/C09.v are about; the
+   `_v0` / `_v1` versions are kept for the historical `*_refuted` lemmas. *)
+Definition pdiv_clean_divide := pdiv_clean_divide_v2.
 
 (* ------------------------------------------------------------------ XFieldElement::inverse (x_field_element.rs)
      assert!(!self.is_zero());
